@@ -103,6 +103,16 @@ func classifyRoot(cfg core.Config, root mast.Root, load func(string) ([]byte, bo
 	if nlinks != 0 && nlinks != len(keys)+1 {
 		return c19Verdict{true, fmt.Sprintf("mismatched counts: %d keys, %d links", len(keys), nlinks)}
 	}
+	if root.NodeFormat == ref.FormatBinary {
+		// the binary format writes a nil element as a zero-length body and reads it back as nil
+		// without calling the unmarshaler: such nodes are not "undecodable" by the format's own
+		// convention, so they are left unjudged
+		for i := range keys {
+			if len(keys[i]) == 0 || len(vals[i]) == 0 {
+				return c19Verdict{}
+			}
+		}
+	}
 	dk := make([]interface{}, len(keys))
 	for i, kb := range keys {
 		k, err := cfg.UnmarshalKey(kb)
@@ -278,6 +288,9 @@ func runC19(c C19Case, o *run.Obs) error {
 	case "random-bytes":
 		b, _ := base64.StdEncoding.DecodeString(c.Bytes)
 		replaceTop(b)
+		if c.B < 8 {
+			root.Height = uint8(c.B) // fuzz findings carry the recorded height here
+		}
 	case "count-drop-value":
 		applied = craft(func(k, v [][]byte, l []string) ([][]byte, [][]byte, []string, uint64) {
 			if len(v) == 0 {
@@ -424,7 +437,7 @@ func FuzzLoadMast(f *testing.F) {
 		var lerr error
 		perr := core.Safely("LoadMast", func() error { _, lerr = root.LoadMast(core.Ctx, w.RemoteConfig(w.Store, nil)); return nil })
 		if v.bad && (perr != nil || lerr == nil) {
-			c := C19Case{Cfg: cfg, Perturb: "random-bytes", Bytes: base64.StdEncoding.EncodeToString(top)}
+			c := C19Case{Cfg: cfg, Perturb: "random-bytes", Bytes: base64.StdEncoding.EncodeToString(top), B: int(height % 8), Base: []core.Op{{Kind: core.OpInsert, K: 1, V: 1}}}
 			saveFuzzFinding(c, root)
 			t.Fatalf("bad root (%s) was not rejected with an error: panic=%v err=%v", v.why, perr, lerr)
 		}
